@@ -82,6 +82,14 @@ def scenarios(tier, seed):
                         f = dict(singles[i])
                         f.update(singles[j])
                         items.append(('c05', S.with_faults(scn, f), None))
+    # the library's own LocalDeviceObject defaults: segment timeout 5000 ms ABOVE the APDU timeout 3000 ms (a segmented request answered by a
+    # segmented response); failures of this scenario carry their own name (known finding C05-KF1, see known_findings.json)
+    dflt = dict(maxApdu=50, retries=3, segT=5000, apduT=3000)
+    scn = S.two_node(dict(dflt), dict(dflt), n=2 * 44 + 2, resp=('complex', 2 * 45 + 1))
+    ff = S.fault_free_frames(scn)
+    want = ff.records[0]['outcomes'][0]['kind'] if ff.records[0]['outcomes'] else None
+    for kind, faults in S.single_faults(len(ff.frames), delays=(0.0025, 0.4, 2.0)):
+        items.append(('c05', S.with_faults(scn, faults), (kind, want, S.frame_category(ff.frames[list(faults)[0]]) + '-with-segment-timeout-above-apdu-timeout')))
     # a long transfer with a single fault near the wrap-around of the sequence numbers
     wrap = S.two_node(dict(maxApdu=50, win=4, retries=1, maxSegs=None), dict(maxApdu=50, win=4, retries=1, maxSegs=None), n=10, resp=('complex', 270 * 45))
     ffw = S.fault_free_frames(wrap)
